@@ -131,6 +131,17 @@ def crystal_library():
     L['skew34'] = lambda: _c(a([[1., 3.4], [0., 1.]]), [a([0., 0.])], noreduce=True)
     L['mono-unreduced'] = lambda: _c(a([[1., 0., 2.5 * np.cos(np.deg2rad(125.))], [0., 1.1, 0.], [0., 0., 2.5 * np.sin(np.deg2rad(125.))]]),
                                      [a([0., 0., 0.])], noreduce=True)
+    # rutile (P4_2/mnm): the first species (2 sites) sits on a body-centred sublattice of higher symmetry than the crystal, so for the
+    # 4-fold rotations the first candidate translation maps species 0 but not species 1 (the real operation is the 4_2 screw);
+    # 'ab22': a two-plus-two-site cut-down of it
+    def _rutile(full=True):
+        u = 0.3
+        ti = [a([0., 0., 0.]), a([0.5, 0.5, 0.5])]
+        ox = [a([u, u, 0.]), a([-u, -u, 0.]), a([0.5 + u, 0.5 - u, 0.5]), a([0.5 - u, 0.5 + u, 0.5])]
+        return _c(np.diag([1., 1., 0.64]), [ti, ox if full else [ox[0], ox[1]]], noreduce=True)
+    L['rutile'] = lambda: _rutile(True)
+    L['ab22'] = lambda: _rutile(False)
+    L['oblique-nosym'] = lambda: _c(a([[1., 0.3], [0., 1.2]]), [a([0., 0.]), a([0.3, 0.4])], NOSYM=True)
     L['fcc-nosym'] = lambda: _c(0.5 * a([[0., 1., 1.], [1., 0., 1.], [1., 1., 0.]]), [a([0., 0., 0.])], NOSYM=True)
     L['hcp-nosym'] = lambda: _c(a([[0.5, 0.5, 0.], [-np.sqrt(0.75), np.sqrt(0.75), 0.], [0., 0., np.sqrt(8. / 3.)]]),
                                 [a([1. / 3, 2. / 3, 0.25]), a([2. / 3, 1. / 3, 0.75])], NOSYM=True)
